@@ -41,6 +41,13 @@ type Config struct {
 	StrictZombie bool
 	// BanThreshold: 100 is the daemon default; 4 lets a run reach the ban.
 	BanThreshold uint64
+	// Own (own-channels arm): the node itself is an endpoint of one or two
+	// extra channels; the simulator plays the funding manager and the remote
+	// endpoint (see own.go).
+	Own bool
+	// StoreRace (store-race arm, race.go): caller goroutines against the
+	// graph store, scheduled at the database boundary.
+	StoreRace bool
 	// weights of the step kinds
 	WCA, WCU, WNA, WDup, WTime, WBlock, WTrickle, WFilter, WBurst int
 	// one in CorruptDen deliveries is corrupted at wire level, one in
@@ -74,6 +81,12 @@ func DrawConfig(t *simcore.Tape, thorough bool) Config {
 	}
 	c.SyncPeers = 1 + t.CfgDraw(c.Peers)
 	switch a := t.CfgDraw(16); {
+	case a == 3:
+		// store-race arm (was: one of four values of the plain sequential arm)
+		c.StoreRace = true
+	case a == 4 || a == 5:
+		// own-channels arm; its further draws come last (addOwnChannels)
+		c.Own = true
 	case a >= 6 && a <= 8:
 		c.Aging = true
 		c.StrictZombie = t.CfgDraw(2) == 1
@@ -114,28 +127,36 @@ type Sim struct {
 	everChan     map[uint64]*pChan
 	everEndpoint map[[33]byte]bool
 
-	dirty    map[string]bool   // wire messages generated with a variant or corruption
+	dirty map[string]bool // wire messages generated with a variant or corruption
 	// Sequential arm only: what the node is known to have buffered, so that
 	// the simulator never makes it replay two conflicting messages at once
 	// (their relative order would be the Go scheduler's choice).
 	futurePending    map[uint64]uint32 // scid -> its block height (beyond the tip)
 	prematurePending map[string]bool   // "scid/dir" of an update buffered for an unknown channel
-	lastTs   map[string]uint32 // highest timestamp generated per key
-	applied  int
-	spends   int
-	dbFaults int
-	selfloop bool // a channel with node_id_1 == node_id_2 has been in the graph
+	lastTs           map[string]uint32 // highest timestamp generated per key
+	applied          int
+	spends           int
+	dbFaults         int
+	selfloop         bool // a channel with node_id_1 == node_id_2 has been in the graph
 	// aging arm
 	ages        int               // long sleeps so far
 	agedSince   bool              // a zombie prune may have run since the last check
 	zombieSince map[uint64]uint32 // scid pruned as a zombie -> unix time of the prune
 	// liveUpd: scid -> a channel_update for it was delivered after it became
 	// a zombie whose timestamp was within the prune horizon at delivery
-	liveUpd map[uint64]bool
+	liveUpd  map[uint64]bool
 	curWires map[string]bool // messages delivered in the current step
 	rejected int
 	corrupt  int
 	step     int
+	// own-channels arm
+	self       *uNode
+	own        map[uint64]*ownChan
+	ownList    []*ownChan
+	stepKind   string
+	cameOnline bool // a channel peer connected in the current step
+	// premature announcement_signatures the node buffers, per named scid
+	annsigPending map[uint64]*annsigBuffered
 }
 
 var hexAddr = regexp.MustCompile(`0x[0-9a-f]{6,}`)
@@ -157,7 +178,15 @@ func cleanErr(err error) string {
 // again on the caller's goroutine.
 func Run(t *testing.T, r *simcore.Run, thorough bool) {
 	cfg := DrawConfig(r.Tape, thorough)
+	// One value of the arm draw is the store-race arm (race.go), which runs
+	// outside a bubble; its own configuration draws follow.
+	if cfg.StoreRace || os.Getenv("VERIF_C20_ONLY_RACE") != "" {
+		RunStoreRace(r)
+		return
+	}
 	switch {
+	case cfg.Own:
+		r.Arm = "own-channels"
 	case cfg.Burst:
 		r.Arm = "concurrent"
 	case cfg.KVFault:
@@ -186,7 +215,8 @@ func Run(t *testing.T, r *simcore.Run, thorough bool) {
 	synctest.Test(t, func(t *testing.T) {
 		s := &Sim{r: r, cfg: cfg, byWire: map[string]*msgInfo{}, everChan: map[uint64]*pChan{},
 			everEndpoint: map[[33]byte]bool{}, lastTs: map[string]uint32{}, dirty: map[string]bool{},
-			futurePending: map[uint64]uint32{}, prematurePending: map[string]bool{}}
+			futurePending: map[uint64]uint32{}, prematurePending: map[string]bool{},
+			annsigPending: map[uint64]*annsigBuffered{}}
 		defer func() {
 			if p := recover(); p != nil {
 				carried = p
@@ -313,6 +343,9 @@ func (s *Sim) buildUniverse() *SimChain {
 		}
 		u.chans = append(u.chans, c)
 	}
+	if s.cfg.Own {
+		s.addOwnChannels(chain, u)
+	}
 	for chain.Height() < startHeight {
 		var extra []*wire.MsgTx
 		if chain.Height()+1 == startHeight-1 {
@@ -340,12 +373,27 @@ type op struct {
 func (s *Sim) run() {
 	r := s.r
 	chain := s.buildUniverse()
-	self := newNode(100)
+	self := s.self
+	if self == nil {
+		self = newNode(100)
+	}
+	var ownChans []*uChan
+	for _, c := range s.u.chans {
+		if c.own {
+			ownChans = append(ownChans, c)
+		}
+	}
+	if s.cfg.Own && s.cfg.SQL {
+		r.Arm = "sqlite/own-channels"
+	}
 	agingWorld = s.cfg.Aging
 	strictZombieWorld = s.cfg.StrictZombie
 	s.zombieSince, s.liveUpd = map[uint64]uint32{}, map[uint64]bool{}
-	s.w = NewWorld(r, chain, self, s.cfg.Peers, s.cfg.SyncPeers, s.cfg.SQL, s.cfg.BanThreshold)
+	s.w = NewWorld(r, chain, self, s.cfg.Peers, s.cfg.SyncPeers, s.cfg.SQL, s.cfg.BanThreshold, ownChans)
 	logf(r, "config: %+v", s.cfg)
+	if s.cfg.Own {
+		s.initOwn()
+	}
 	s.proj = s.w.readProjection()
 	s.w.drain()
 
@@ -370,6 +418,7 @@ func (s *Sim) run() {
 		if s.cfg.WBurst > 0 {
 			ops = append(ops, op{"burst", s.cfg.WBurst})
 		}
+		ops = append(ops, s.ownOps()...)
 		total := 0
 		for _, o := range ops {
 			total += o.weight
@@ -384,7 +433,10 @@ func (s *Sim) run() {
 			pick -= o.weight
 		}
 		var what string
+		s.stepKind = kind
 		switch kind {
+		case "own-open", "own-cu", "own-half-local", "own-half-remote", "own-peer-off", "own-peer-on":
+			what = s.ownStep(kind)
 		case "ca", "cu", "na", "dup":
 			w, label := s.genMessage(kind)
 			r.Kind(kind)
@@ -445,6 +497,7 @@ func (s *Sim) run() {
 	}
 
 	s.curWires = map[string]bool{}
+	s.stepKind = "wind-down"
 	// Flush: let every batched broadcast leave the node and judge it too.
 	time.Sleep(2 * trickleDelay)
 	s.w.settle()
@@ -461,7 +514,7 @@ func (s *Sim) run() {
 // missingGood: some channel with a sound funding output is not in the graph.
 func (s *Sim) missingGood() bool {
 	for _, c := range s.u.chans {
-		if c.kind != fundOK && c.kind != fundFuture {
+		if (c.kind != fundOK && c.kind != fundFuture) || c.own {
 			continue
 		}
 		if _, ok := s.proj.chans[c.scid.ToUint64()]; ok {
@@ -516,6 +569,11 @@ func (s *Sim) mine() string {
 	for k, height := range s.futurePending {
 		if height <= uint32(h) {
 			delete(s.futurePending, k)
+		}
+	}
+	for k, b := range s.annsigPending {
+		if b.need <= uint32(h) {
+			delete(s.annsigPending, k)
 		}
 	}
 	return fmt.Sprintf("after block %d (%s)", h, label)
@@ -1015,6 +1073,7 @@ func indexOf(hay, needle []byte) int {
 var traceToStderr = os.Getenv("GOSSIPSIM_TRACE") != ""
 var traceDir = os.Getenv("GOSSIPSIM_TRACE_DIR")
 var traceFile *os.File
+var traceEmit = os.Getenv("GOSSIPSIM_TRACE_EMIT") != ""
 
 // logf appends to the (hashed) event trace; with GOSSIPSIM_TRACE set the line
 // is also printed immediately (debugging aid; output is not part of any result).
